@@ -38,7 +38,7 @@ use crate::errors::{Result, XcpError};
 use crate::feedback::{StatusUpdate, StatusUpdater};
 use crate::operations::{CopyHandle, Operation, tree_walker};
 use crate::paths::lexists;
-use libfs::{copy_file_offset, map_extents, merge_extents, probably_sparse};
+use libfs::{copy_file_offset, map_extents, merge_extents, next_sparse_segments, probably_sparse};
 
 // ********************************************************************** //
 
@@ -198,7 +198,17 @@ fn queue_file_blocks(
             }
             queued
         } else {
-            queue_whole_file()?
+            // No extent map on this filesystem; it may still be able
+            // to tell data from holes, so walk the data segments
+            // rather than materialising the holes.
+            let mut queued = 0;
+            let mut pos = 0;
+            while pos < len {
+                let (next_data, next_hole) = next_sparse_segments(&harc.infd, &harc.outfd, pos)?;
+                queued += queue_file_range(&harc, next_data..next_hole, pool, status_channel)?;
+                pos = next_hole;
+            }
+            queued
         }
     } else {
         queue_whole_file()?
